@@ -548,7 +548,7 @@ SPECS["C17"] = {
          "reach": {"VerifC17_Escape2": ["escaped"], "VerifC17_InfluxBatches": ["batched"]},
          "limits": {"quick": {"timeout": "600s"}, "thorough": {"timeout": "1800s"}}},
         {"pkg": "./pkg/backends/datadog", "harness": "pkg/backends/datadog", "mode": "machine", "workers": 8,
-         "entries": {"quick": ["VerifC17_DatadogBatches"]}, "reach": {"*": ["batched"]}, "limits": {"quick": {"timeout": "600s"}}},
+         "entries": {"quick": ["VerifC17_DatadogBatches", "VerifC17_DatadogHistogram"]}, "reach": {"VerifC17_DatadogBatches": ["batched"], "VerifC17_DatadogHistogram": ["histogram"]}, "limits": {"quick": {"timeout": "600s"}}},
         {"pkg": "./pkg/backends/newrelic", "harness": "pkg/backends/newrelic", "mode": "machine", "workers": 8,
          "entries": {"quick": ["VerifC17_NewRelicBatches"]}, "reach": {"*": ["batched"]}, "limits": {"quick": {"timeout": "600s"}}},
         {"pkg": "./pkg/backends/otlp", "harness": "pkg/backends/otlp", "mode": "machine", "workers": 8,
